@@ -85,7 +85,7 @@ theorem c11_valid_is_validated_enhanced (env : Env J S C) (cfg : Cfg) (st st' : 
       · obtain ⟨cs, hs⟩ := hshape; rw [hs]; rfl
       · obtain ⟨ns, hs⟩ := hshape; rw [hs]; rfl
 
-example : ∃ st' r, (foldX toyEnv ⟨[]⟩ Stats.zero rawProse []).res = .ok (st', r) ∧ r.valid = true ∧
+example : ∃ st' r, (foldX toyEnv (Cfg.new []) Stats.zero rawProse []).res = .ok (st', r) ∧ r.valid = true ∧
     r.struct = some 7 ∧ r.strategyUsed = some .extraction := ⟨_, _, rfl, rfl, rfl, rfl⟩
 
 /-- The same for the plain `fold`: valid ⇒ the structure is the result of a successful `model_validate d` with
@@ -109,7 +109,7 @@ theorem c11_valid_is_validated (env : Env J S C) (cfg : Cfg) (st st' : Stats) (r
     · obtain ⟨cs, hs⟩ := hshape; rw [hs]
     · obtain ⟨ns, hs⟩ := hshape; rw [hs]
 
-example : ∃ st' r, (fold toyEnv ⟨[]⟩ Stats.zero rawProse []).res = .ok (st', r) ∧ r.valid = true ∧
+example : ∃ st' r, (fold toyEnv (Cfg.new []) Stats.zero rawProse []).res = .ok (st', r) ∧ r.valid = true ∧
     r.struct = some 7 := ⟨_, _, rfl, rfl, rfl⟩
 
 /-- Every entry of the call trace is a genuine call: the result recorded next to an argument is what the
@@ -141,7 +141,7 @@ theorem c11_invalid_has_no_structure_and_a_trace_enhanced (env : Env J S C) (cfg
     · intro a ha; simp [failRec] at ha; obtain ⟨s, _, rfl⟩ := ha; rfl
   · rw [hx] at h; simp at h; obtain ⟨_, rfl⟩ := h; simp [hxv] at hv
 
-example : ∃ st' r, (foldX toyEnv ⟨[]⟩ Stats.zero rawBad []).res = .ok (st', r) ∧ r.valid = false ∧
+example : ∃ st' r, (foldX toyEnv (Cfg.new []) Stats.zero rawBad []).res = .ok (st', r) ∧ r.valid = false ∧
     r.err = some (.allFailed 4) ∧ r.attempts.length = 4 := ⟨_, _, rfl, rfl, rfl, rfl⟩
 
 /-- When `fold` reports invalid: no structure, and the error trace is the "All n folding strategies failed"
@@ -154,7 +154,7 @@ theorem c11_invalid_has_no_structure_and_a_trace (env : Env J S C) (cfg : Cfg) (
   · rw [hp] at h; simp at h; obtain ⟨_, rfl⟩ := h; exact ⟨rfl, rfl⟩
   · rw [hp] at h; simp at h; obtain ⟨_, rfl⟩ := h; simp at hv
 
-example : ∃ st' r, (fold toyEnv ⟨[]⟩ Stats.zero rawBad [.strict, .repair]).res = .ok (st', r) ∧ r.valid = false ∧
+example : ∃ st' r, (fold toyEnv (Cfg.new []) Stats.zero rawBad [.strict, .repair]).res = .ok (st', r) ∧ r.valid = false ∧
     r.err = some (.allFailed 2) := ⟨_, _, rfl, rfl, rfl⟩
 
 /-- Both folds echo the raw text they were given. -/
@@ -188,7 +188,7 @@ theorem c11_strict_takes_clean_json_verbatim_enhanced (env : Env J S C) (cfg : C
   unfold loopX
   simp [attemptX, foldStrictX_clean env raw d v hl hval]
 
-example : effective ⟨[]⟩ [] = .strict :: [.extraction, .lenient, .repair] ∧
+example : effective (Cfg.new []) [] = .strict :: [.extraction, .lenient, .repair] ∧
     toyEnv.loads (strip rawClean) = .ok 1 ∧ toyEnv.validate 1 = .ok 7 := ⟨rfl, rfl, rfl⟩
 
 /-- The same for the plain `fold`: exactly the two calls, valid, structure `v`, no error trace. -/
@@ -207,13 +207,13 @@ theorem c11_strict_takes_clean_json_verbatim (env : Env J S C) (cfg : Cfg) (st :
     rw [foldStrict_eq, foldStrictX_clean env raw d v hl hval]; rfl
   simp [attemptP, h]
 
-example : (fold toyEnv ⟨[.strict]⟩ Stats.zero rawClean []).trace =
+example : (fold toyEnv (Cfg.new [.strict]) Stats.zero rawClean []).trace =
     [.loads [123, 125] (.ok 1), .validate 1 (.ok 7)] := rfl
 
 /-- The default configuration (no constructor strategies, no per-call strategies) starts with STRICT, so the
     two theorems above apply to it. -/
 theorem c11_default_starts_with_strict (call : List Strategy) (hc : call = []) :
-    effective ⟨[]⟩ call = .strict :: [.extraction, .lenient, .repair] := by
+    effective (Cfg.new []) call = .strict :: [.extraction, .lenient, .repair] := by
   subst hc; rfl
 
 /-- Schema-valid JSON is never rejected when STRICT is among the requested strategies, wherever it stands
@@ -232,7 +232,7 @@ theorem c11_clean_json_is_accepted (env : Env J S C) (cfg : Cfg) (st : Stats) (r
     · rw [hp] at h; simp at h; obtain ⟨_, rfl⟩ := h; rfl
     · rw [hx] at h; simp at h; obtain ⟨_, rfl⟩ := h; exact hxv
 
-example : Strategy.strict ∈ effective ⟨[.repair, .strict]⟩ [] := by decide
+example : Strategy.strict ∈ effective (Cfg.new [.repair, .strict]) [] := by decide
 
 /-! ## The plain and enhanced folds agree -/
 
@@ -319,6 +319,42 @@ theorem c11_stats_step (env : Env J S C) (cfg : Cfg) (st st' : Stats) (raw : Tex
   · rw [hx] at h; simp at h; obtain ⟨rfl, rfl⟩ := h
     exact ⟨rfl, by simp [hxv], fun s => bumpAll_ge _ _ s⟩
 
+/-! ## Chaperone instances do not share configuration -/
+
+/-- With several Chaperones alive: editing one instance's public `strategies` list in place (remove, reverse,
+    append, clear), folding on it (which updates its counters) or creating a further instance leaves every other
+    instance exactly as it was; and a newly created default-configured instance starts with the default order
+    STRICT, EXTRACTION, LENIENT, REPAIR whatever happened to the instances before it. -/
+theorem c11_instances_are_independent (w : World) (i j : Nat) (hij : j ≠ i) (t : Tune) (st : Stats)
+    (ctor : List Strategy) :
+    (w.tune i t)[j]? = w[j]? ∧ (w.setStats i st)[j]? = w[j]? ∧ (j < w.length → (w.create ctor)[j]? = w[j]?) ∧
+    ((w.create []).tune i t)[w.length]?.map (·.cfg.strategies) =
+      (if i = w.length then some ((Cfg.new []).tune t).strategies else some defaultStrategies) := by
+  refine ⟨?_, ?_, ?_, ?_⟩
+  · unfold World.tune
+    split
+    · rw [List.getElem?_set_ne (Ne.symm hij)]
+    · rfl
+  · unfold World.setStats
+    split
+    · rw [List.getElem?_set_ne (Ne.symm hij)]
+    · rfl
+  · intro hj
+    unfold World.create
+    rw [List.getElem?_append_left hj]
+  · unfold World.tune World.create
+    by_cases hi : i = w.length
+    · subst hi
+      simp
+    · simp [hi]
+      split
+      · rw [List.getElem?_set_ne hi]
+        simp [Cfg.new]
+      · simp [Cfg.new]
+
+example : (World.tune (World.create (World.create [] []) []) 0 (.remove .strict)).map (·.cfg.strategies) =
+    [[.extraction, .lenient, .repair], [.strict, .extraction, .lenient, .repair]] := by decide
+
 /-! ## The healing loop (`ChaperoneLoop.heal`) hands on the validator's verdict and keeps the confidence in range -/
 
 /-- `heal` always returns a `HealingResult`, for every generator behaviour (any text at any attempt), every
@@ -357,7 +393,7 @@ theorem c11_heal_result_is_a_valid_fold (env : Env J S C) (cfg : Cfg) (st st' : 
     rw [ho]
     by_cases hj0 : j = 0 <;> simp [hj0]
 
-example : ∃ st' h, (heal toyEnv ⟨[]⟩ Stats.zero (1 / 2) 3 (fun k => if k < 2 then rawBad else rawProse)).res = .ok (st', h) ∧
+example : ∃ st' h, (heal toyEnv (Cfg.new []) Stats.zero (1 / 2) 3 (fun k => if k < 2 then rawBad else rawProse)).res = .ok (st', h) ∧
     h.outcome = .healed ∧ h.finalConfidence = 0 ∧ h.attempts.length = 3 := ⟨_, _, rfl, rfl, by decide +kernel, rfl⟩
 
 /-- When `heal` gives up: nothing is returned (no folded protein), `final_confidence` is 0, the result is tagged for
@@ -376,7 +412,7 @@ theorem c11_heal_degraded_has_nothing (env : Env J S C) (cfg : Cfg) (st st' : St
   · rw [ho] at hd
     by_cases hj0 : j = 0 <;> simp [hj0] at hd
 
-example : ∃ st' h, (heal toyEnv ⟨[]⟩ Stats.zero (1 / 10) 2 (fun _ => rawBad)).res = .ok (st', h) ∧
+example : ∃ st' h, (heal toyEnv (Cfg.new []) Stats.zero (1 / 10) 2 (fun _ => rawBad)).res = .ok (st', h) ∧
     h.outcome = .degraded := ⟨_, _, rfl, rfl⟩
 
 /-- Through the healing loop the confidence stays in [0, 1] — the final confidence, the confidence written into
@@ -502,7 +538,7 @@ theorem c11_lenient_values_come_from_the_text {K V : Type} [DecidableEq K] (env 
     exact Or.inr ⟨items, out, hd, rfl, hkeys, hvals⟩
 
 example : toyEnvL.coerce = coerceModel toyC ∧
-    ∃ st' r, (foldX toyEnvL ⟨[]⟩ Stats.zero rawClean []).res = .ok (st', r) ∧ r.valid = true ∧
+    ∃ st' r, (foldX toyEnvL (Cfg.new []) Stats.zero rawClean []).res = .ok (st', r) ∧ r.valid = true ∧
       r.strategyUsed = some .lenient ∧ r.struct = some 7 ∧ r.coercions = [.coerced (0, .strToInt)] :=
   ⟨rfl, _, _, rfl, rfl, rfl, rfl, rfl⟩
 
